@@ -215,8 +215,17 @@ class G:
         self.n_op += 1
         nargs = T.OPS_BRANCH[name]
         # (strings too: the decompiler prints a string with line breaks over several lines - a multi-line header)
-        args = [{"t": "int", "v": 200000 + self.n_op}] + [self.string() if self.b(1, 4) else self.integer_like() for _ in range(nargs - 1)]
+        args = [{"t": "int", "v": 200000 + self.n_op}] + [self.cond_arg() for _ in range(nargs - 1)]
         return {"c": "opn", "op": {"k": "op", "name": name, "args": args, "ctx": None}}
+
+    def cond_arg(self):
+        """argument of an operation used as condition / switch header: any parameter kind"""
+        k = self.i(0, 8)
+        if k < 2:
+            return self.string()
+        if k == 2 and self.pos_marks:
+            return self.pos_value()
+        return self.integer_like()
 
     # -- statements
     def take(self, n=1):
@@ -342,7 +351,7 @@ class G:
             return {"h": "sector"}
         self.n_op += 1
         name = self.pick(["ProcessSpecial", "message_Menu", "message_SwitchMenu", f"op_{self.n_op}", "main_EnterAdventure"])
-        args = [{"t": "int", "v": 300000 + self.n_op}] + [self.string() if self.b(1, 4) else self.integer_like() for _ in range(self.i(0, 2))]
+        args = [{"t": "int", "v": 300000 + self.n_op}] + [self.cond_arg() for _ in range(self.i(0, 2))]
         return {"h": "op", "op": {"k": "op", "name": name, "args": args, "ctx": None}}
 
     def case_head(self):
